@@ -13,8 +13,8 @@ ASSUMPTIONS = [
 ]
 
 
-def correspondence(ctx, thorough, search):
-    out = os.path.join(ctx.work, "search" if search else "corr")
+def correspondence(ctx, thorough, search, prop="C15", sub=""):
+    out = os.path.join(ctx.work, ("search" if search else "corr") + sub)
     n = 1200 if thorough else 50
     rc, o, dt = core.sh([core.vh(), "c15", out, str(ctx.seed + (555 if search else 0)), str(n)], timeout=3000)
     if rc != 0:
@@ -32,7 +32,7 @@ def correspondence(ctx, thorough, search):
             if c != 0:
                 dis.append({"stage": c, "case": l[:600]})
     ov = [{"class": v["class"], "what": v["what"], "input": {"module_hex": v.get("input"), "builder_calls": v.get("builder_calls")}, "observed": v.get("observed"), "expected": v.get("expected"),
-           "replay_cmd": "parse <module_hex>, re-build the function with the listed builder calls, emit"} for v in meta.get("oracle_violations", []) if "C15" in v.get("props", "").split()]
+           "replay_cmd": "parse <module_hex>, re-build the function with the listed builder calls, emit"} for v in meta.get("oracle_violations", []) if prop in v.get("props", "").split()]
     cov = {"evaluations": meta["cases"], "distinct_nontrivial": meta["cases"],
            "rule": "every local function of generated valid modules is re-built through the public builder API: per sequence either in order (instr) or in a random permutation with positional inserts (instr_at / block_at / loop_at / if_else_at), nested constructs through closures or as dangling sequences attached afterwards; distinct = distinct call sequence",
            "samples": meta["samples"], "traces_validated_against_impl": n_eval,
